@@ -1089,4 +1089,4 @@ def x30(cx: Cx, ob: Ob) -> None:
     check_split(cx, ob)
     check_parse_curie_delimiter(cx, ob)
     check_parse_curie_flow(cx, ob)
-    check_expand_wrappers(cx, ob)
+    check_expand_wrappers(cx, ob, only_expand_all=True)  # expand / expand_pair are not part of the reference set
